@@ -11,6 +11,7 @@ import (
 	"os"
 	"sync"
 	"sync/atomic"
+	"time"
 
 	"github.com/magefile/mage/mg"
 )
@@ -65,7 +66,84 @@ func contend(spec contendSpec) {
 	// runtime.FuncForPC names both "main.genericDep[...]")
 	mg.Deps(genericDep[int], genericDep[string])
 	json.NewEncoder(os.Stdout).Encode(map[string]interface{}{"keys": len(contendCount), "not_once": bad,
-		"generic_runs": []int32{atomic.LoadInt32(&genericRuns[0]), atomic.LoadInt32(&genericRuns[1])}})
+		"generic_runs": []int32{atomic.LoadInt32(&genericRuns[0]), atomic.LoadInt32(&genericRuns[1])},
+		"invalid_member": invalidProbe(), "name_prefix": namesProbe()})
+}
+
+// ---- a call naming a valid, slow dependency AND a value that is not a dependency at all:
+// the call panics; whenever it unwinds, nothing it named may be running (C02).
+var (
+	invStarted, invFinished, invCallEnded, invOverlap int32
+	invRelease                                        chan struct{}
+)
+
+func invSlow() {
+	atomic.StoreInt32(&invStarted, 1)
+	<-invRelease
+	if atomic.LoadInt32(&invCallEnded) == 1 {
+		atomic.StoreInt32(&invOverlap, 1) // the call that named us ended while we were (about to be) running
+	}
+	atomic.StoreInt32(&invFinished, 1)
+}
+func invSlowCtx(context.Context) error { invSlow(); return nil }
+func invBad() int                      { return 1 }
+
+func invalidProbe() map[string]interface{} {
+	res := map[string]interface{}{}
+	try := func(name string, call func()) {
+		atomic.StoreInt32(&invStarted, 0)
+		atomic.StoreInt32(&invFinished, 0)
+		atomic.StoreInt32(&invCallEnded, 0)
+		atomic.StoreInt32(&invOverlap, 0)
+		invRelease = make(chan struct{})
+		rel := invRelease
+		go func() { time.Sleep(300 * time.Millisecond); close(rel) }()
+		panicked, running := false, false
+		func() {
+			defer func() {
+				if recover() != nil {
+					panicked = true
+				}
+				running = atomic.LoadInt32(&invStarted) == 1 && atomic.LoadInt32(&invFinished) == 0
+				atomic.StoreInt32(&invCallEnded, 1)
+			}()
+			call()
+		}()
+		time.Sleep(450 * time.Millisecond)
+		res[name] = map[string]bool{"panicked": panicked, "unwound_while_running": running || atomic.LoadInt32(&invOverlap) == 1}
+	}
+	try("Deps(slow, 42)", func() { mg.Deps(invSlow, 42) })
+	try("CtxDeps(slowctx, badfunc)", func() { mg.CtxDeps(context.Background(), invSlowCtx, invBad) })
+	return res
+}
+
+// ---- functions whose names are prefixes of one another: a different function is a different
+// dependency, and a caller is not its own dependency because its name starts the same (C01).
+var nmCount [4]int32
+var nmBad int32
+
+func NmBuild()    { atomic.AddInt32(&nmCount[0], 1) }
+func NmBuildAll() {
+	mg.Deps(NmBuild)
+	if atomic.LoadInt32(&nmCount[0]) != 1 {
+		atomic.AddInt32(&nmBad, 1) // Deps(NmBuild) returned although NmBuild has not run
+	}
+	atomic.AddInt32(&nmCount[1], 1)
+}
+func NmF1() error { atomic.AddInt32(&nmCount[2], 1); return nil }
+func NmF10() error {
+	mg.SerialDeps(NmF1)
+	if atomic.LoadInt32(&nmCount[2]) != 1 {
+		atomic.AddInt32(&nmBad, 1)
+	}
+	atomic.AddInt32(&nmCount[3], 1)
+	return nil
+}
+
+func namesProbe() []int32 {
+	mg.Deps(NmBuildAll, NmF10)
+	mg.Deps(NmBuild, NmF1)
+	return []int32{atomic.LoadInt32(&nmCount[0]), atomic.LoadInt32(&nmCount[1]), atomic.LoadInt32(&nmCount[2]), atomic.LoadInt32(&nmCount[3]), atomic.LoadInt32(&nmBad)}
 }
 
 var genericRuns [2]int32
